@@ -404,6 +404,11 @@ def one_run(args):
             'wall_s': round(time.time() - t0, 2), 'tail': log[-600:]}
 
 
+def build_and_run_samples(thorough):
+    ok, log, bindir = build_samples()
+    return ok, log, bindir, (whole_runs(bindir, thorough) if ok else [])
+
+
 def whole_runs(bindir, thorough):
     jobs = []
     sets = GPUSETS_QUICK + (GPUSETS_THOROUGH if thorough else [])
@@ -413,6 +418,10 @@ def whole_runs(bindir, thorough):
                 jobs.append((bindir, name, opts + g + mode, 120))
     for name, opts in MULTI_GPU_TIMING:
         jobs.append((bindir, name, opts, 45))
+    # former findings (fixed on main): a relapse is a VIOLATION
+    jobs.append((bindir, 'fir', ['-length=1024', '-gpus=1,2,3,4', '-timing'], 45))
+    jobs.append((bindir, 'relu', ['-length=128', '-gpus=1,2', '-timing'], 45))
+    jobs.append((bindir, 'matrixtranspose', ['-width=64', '-gpus=1,2'], 120))
     if thorough:
         jobs.append((bindir, 'fir', ['-length=4096', '-gpus=1,2', '-timing'], 300))
         jobs.append((bindir, 'matrixtranspose', ['-width=256', '-gpus=1,2,3,4'], 300))
@@ -421,6 +430,116 @@ def whole_runs(bindir, thorough):
         jobs.append((bindir, 'atax', ['-x=64', '-y=64', '-gpus=1,2,3,4'], 300))
     with ThreadPoolExecutor(max_workers=8) as ex:
         return list(ex.map(one_run, jobs))
+
+
+# ------------------------------------------------------------------ GPU-count independence stream (harness -mode e2e)
+
+E2E_SMALL = [1, 2, 3, 5, 7]
+
+
+def e2e_matrix(thorough):
+    """(bench, size, gpus, unified, timing) of every multi-GPU run; the 1-GPU baselines are derived"""
+    runs = []
+    for g in (2, 3, 4):
+        gl = ','.join(str(i) for i in range(1, g + 1))
+        for bench in ('fir', 'relu'):
+            for n in E2E_SMALL + [256 * g - 1, 256 * g + 1]:
+                runs.append((bench, n, gl, False, False))
+                if n <= 7 or thorough:
+                    runs.append((bench, n, gl, False, True))
+        for cols in sorted(set(E2E_SMALL + [2 * g - 1, 2 * g + 1])):
+            runs.append(('matrixtranspose', 64 * cols, gl, False, False))
+            if (cols <= 3 and g >= 3) or (thorough and cols <= 7):
+                runs.append(('matrixtranspose', 64 * cols, gl, False, True))
+        for n in (1, 257, 256 * g + 1):
+            runs.append(('fir', n, gl, True, False))
+            if thorough:
+                runs.append(('fir', n, gl, True, True))
+    return runs
+
+
+def e2e_one(args):
+    binary, (bench, size, gl, unified, timing) = args
+    d = tempfile.mkdtemp(prefix='c18e2e_', dir=vlib.BUILD)
+    cmd = [binary, '--mode', 'e2e', '--bench', bench, '--size', str(size), '--gpus', gl]
+    cmd += ['--unified'] if unified else []
+    cmd += ['--timing'] if timing else []
+    t0 = time.time()
+    try:
+        rc, log = vlib.run(cmd, cwd=d, timeout=90)
+    finally:
+        shutil.rmtree(d, ignore_errors=True)
+    res = {'bench': bench, 'size': size, 'gpus': gl, 'unified': unified, 'timing': timing, 'rc': rc,
+           'wall_s': round(time.time() - t0, 2), 'timeout': rc == 124, 'data': None, 'verify': None, 'tail': log[-400:]}
+    for line in log.split('\n'):
+        if line.startswith('{"bench"'):
+            try:
+                res['data'] = json.loads(line)
+            except ValueError:
+                pass
+        elif line.startswith('VERIFY '):
+            res['verify'] = line[7:].strip()
+    return res
+
+
+def e2e_name(r):
+    return '%s size=%d %s=%s %s' % (r['bench'], r['size'], 'unified-gpus' if r['unified'] else 'gpus', r['gpus'], 'timing' if r['timing'] else 'emulation')
+
+
+def seen_launches(r):
+    ls = sorted((l['gpu'], l['grid'][0]) for l in r['data']['launches'])
+    if r['bench'] == 'matrixtranspose':
+        return [(g, x // 16) for g, x in ls]
+    return ls
+
+
+def monitor_e2e(r, base):
+    """GPU-count independence of one run against the 1-GPU run of the same size and mode"""
+    nm = e2e_name(r)
+    if r['timeout']:
+        return nm + ': does not terminate'
+    if r['data'] is None:
+        return nm + ': crashed before its buffers could be read: ' + r['tail'][-200:]
+    if base is None or base['data'] is None or base['verify'] != 'pass':
+        return None if base is None else e2e_name(base) + ': the single-GPU run itself fails (%s)' % (base['verify'] or base['tail'][-150:])
+    b0 = {b['name']: b for b in base['data']['buffers']}
+    b1 = {b['name']: b for b in r['data']['buffers']}
+    for name in sorted(b0):
+        if name not in b1:
+            return nm + ': device buffer %s is missing' % name
+        if (b0[name]['size'], b0[name]['sha256']) != (b1[name]['size'], b1[name]['sha256']):
+            return (nm + ': device buffer %s (%d bytes) differs from the single-GPU run (first bytes %s vs %s); the benchmark\'s own verification says: %s'
+                    % (name, b1[name]['size'], b1[name]['head'][:32], b0[name]['head'][:32], r['verify'] or 'aborted the process'))
+    if r['verify'] != 'pass':
+        return nm + ': the benchmark rejects its own result (%s)' % (r['verify'] or 'verification aborted the process')
+    if not r['unified']:
+        # whatever split the benchmark uses, its slices must be a partition: one launch per GPU at
+        # most, lengths adding up to the number of items (the exact slices are compared with the
+        # Coq model separately, as a correspondence)
+        seen = seen_launches(r)
+        n = r['size'] // 64 if r['bench'] == 'matrixtranspose' else r['size']
+        if len({g for g, _ in seen}) != len(seen) or sum(l for _, l in seen) != n or any(l <= 0 for _, l in seen):
+            return nm + ': kernel launches (GPU, slice length) %s do not partition %d items' % (seen, n)
+    return None
+
+
+def e2e_stream(binary, thorough, only=None):
+    multi = only if only is not None else e2e_matrix(thorough)
+    bases = sorted({(b, n, '1', False, t) for (b, n, _, _, t) in multi})
+    with ThreadPoolExecutor(max_workers=10) as ex:
+        res = list(ex.map(e2e_one, [(binary, j) for j in bases + multi]))
+    base = {(r['bench'], r['size'], r['timing']): r for r in res[:len(bases)]}
+    out = []
+    for r in res[len(bases):]:
+        out.append((r, base.get((r['bench'], r['size'], r['timing']))))
+    return out, res[:len(bases)]
+
+
+def e2e_coq(r):
+    g = len(r['gpus'].split(','))
+    n = r['size'] // 64 if r['bench'] == 'matrixtranspose' else r['size']
+    seen = '; '.join('(%d, %d)' % p for p in seen_launches(r))
+    return 'Tie.mkBCase %s %d %d [%s]' % ('true' if r['bench'] == 'matrixtranspose' else 'false', n, g, seen)
 
 
 # ------------------------------------------------------------------ main
@@ -459,17 +578,27 @@ def main(argv):
         rep.violation({'broken': 'go build of harness/cmd/c18 failed', 'log': log[-4000:]}, nofail=True, text='harness build failed')
         return rep.finish()
 
-    with ThreadPoolExecutor(max_workers=2) as bg:
-        samples_future = bg.submit(build_samples) if not replay_file else None
+    with ThreadPoolExecutor(max_workers=4) as bg:
+        samples_future = bg.submit(build_and_run_samples, thorough) if not replay_file else None
+        e2e_future = bg.submit(e2e_stream, binary, thorough) if not replay_file else None
 
         ok, log = vlib.coq_build(COQ_TARGETS)
-        okp, plog, thms = vlib.coq_check_props(PROP) if ok else (False, log, [])
-        if not (ok and okp):
+        if not ok:
             rep.obligation('coq build', False)
-            rep.violation({'broken': 'Coq development for C18 does not compile', 'log': (log + plog)[-4000:]}, nofail=True)
+            rep.violation({'broken': 'Coq development for C18 does not compile', 'log': log[-4000:]}, nofail=True)
             return rep.finish()
-        for name, axioms in thms:
-            rep.obligation('theorem ' + name + (' [axioms: %s]' % ', '.join(axioms) if axioms else ' [closed under the global context]'), True)
+        # re-compiling props/C18.v for Print Assumptions takes ~15 s of one core: overlap it with the runs
+        props_future = bg.submit(vlib.coq_check_props, PROP)
+
+        def theorem_obligations():
+            okp, plog, thms = props_future.result()
+            if not okp:
+                rep.obligation('coq build', False)
+                rep.violation({'broken': 'props/C18.v does not compile', 'log': plog[-4000:]}, nofail=True)
+                return False
+            for name, axioms in thms:
+                rep.obligation('theorem ' + name + (' [axioms: %s]' % ', '.join(axioms) if axioms else ' [closed under the global context]'), True)
+            return True
 
         # ---- run the implementation
         dcases, scases, rcases = [], [], []
@@ -485,6 +614,14 @@ def main(argv):
                 dcases, log = run_harness(binary, 'dist', cases=src)
             elif kind == 'split':
                 scases, log = run_harness(binary, 'split', cases=src)
+            elif kind == 'e2e':
+                c0 = src[0]
+                pairs, _ = e2e_stream(binary, thorough, only=[(c0['bench'], c0['size'], c0['gpus'], c0['unified'], c0['timing'])])
+                msg = monitor_e2e(*pairs[0])
+                print('# replayed: %s -> %s' % (e2e_name(pairs[0][0]), msg or 'same buffers as the single-GPU run, verification passed'))
+                if msg:
+                    rep.violation({'property': PROP, 'kind': 'e2e', 'what': msg, 'case': c0}, text=msg)
+                return rep.finish()
             elif kind == 'run':
                 ok, log, bindir = build_samples()
                 r = one_run((bindir, src[0]['cmd'][0], [a for a in src[0]['cmd'][1:] if a != '-verify'], 300))
@@ -538,49 +675,33 @@ def main(argv):
         okr, rmism, rlog = vlib.eval_cases(PROP, H_ROUTE, [c['coq'] for c in rcases], shard_size=80, checker='rmismatches') if rcases else (True, [], '')
         rep.obligation('correspondence: RDMA address tables of %d GPUs in timing platforms built by timingconfig (1-4 GPUs, r9nano and mi300a) equal the modelled table' % len(rcases), (bool(rcases) or bool(replay_file)) and okr and not rmism)
 
+        if not theorem_obligations():
+            return rep.finish()
+
+        # ---- GPU-count independence stream
+        epairs, ebases = e2e_future.result() if e2e_future is not None else ([], [])
+        ebad = [(i, m) for i, m in ((i, monitor_e2e(r, b)) for i, (r, b) in enumerate(epairs)) if m]
+        btie = [r for r, _ in epairs if not r['unified'] and r['data'] is not None]
+        okb2, bmism, blog2 = vlib.eval_cases(PROP, H_DRV, [e2e_coq(r) for r in btie], shard_size=200, checker='Tie.bmismatches') if btie else (True, [], '')
+        rep.obligation('correspondence: kernel launches of %d real multi-GPU benchmark runs equal the modelled slices (Bench.launches)' % len(btie), okb2 and not bmism)
+        rep.obligation('validation (not proof): %d multi-GPU runs (sizes 1,2,3,5,7,g*k+-1 on 2,3,4 GPUs, fir/relu/matrixtranspose, emulation and timing) leave every device buffer byte-identical to the 1-GPU run' % len(epairs), not ebad)
+
         # ---- whole runs
         runs = []
         if samples_future is not None:
-            okb, blog, bindir = samples_future.result()
+            okb, blog, bindir, sruns = samples_future.result()
             rep.obligation('sample binaries build from the working tree', okb)
             if not okb:
                 rep.violation({'broken': 'go build of amd/samples failed', 'log': blog[-4000:]}, nofail=True, text='sample build failed')
             else:
-                runs = whole_runs(bindir, thorough)
-                # Witnesses of the recorded findings, run on every check.  While a key is open a
-                # witness that still fails in the recorded way prints KNOWN-FINDING; once the
-                # finding is fixed the witness passes (and, with the key no longer open, a
-                # relapse is a VIOLATION).  Any other failure of a witness is a VIOLATION.
-                hang = 'does not terminate: a MemCopy command whose FlushReq to a busy GPU returns after its copy responses is never dequeued (driver memorycopy.go processFlushReturn)'
-                witnesses = [
-                    ('timing-discrete-3gpu-hang', 'timeout', 'fir -length=1024 -gpus=1,2,3,4 -timing ' + hang,
-                     (bindir, 'fir', ['-length=1024', '-gpus=1,2,3,4', '-timing'], 45)),
-                    ('timing-discrete-3gpu-hang', 'timeout', 'relu -length=128 -gpus=1,2 -timing ' + hang,
-                     (bindir, 'relu', ['-length=128', '-gpus=1,2', '-timing'], 45)),
-                    ('matrixtranspose-wg-column-remainder', 'verify_failed',
-                     'matrixtranspose -width=64 -gpus=1,2 -verify fails: the benchmark gives each GPU numWGWidth/numGPUs work-group '
-                     'columns and drops the remainder (here 1/2 = 0 columns); widths with (width/64) % numGPUs == 0 pass',
-                     (bindir, 'matrixtranspose', ['-width=64', '-gpus=1,2'], 120)),
-                ]
-                with ThreadPoolExecutor(max_workers=3) as ex:
-                    wres = list(ex.map(one_run, [w[3] for w in witnesses]))
-                reported = set()
-                for (key, how, text, _), w in zip(witnesses, wres):
-                    if w['passed']:
-                        runs.append(w)
-                    elif w[how] and (how != 'verify_failed' or not w['timeout']):
-                        if key not in reported:
-                            reported.add(key)
-                            rep.known_finding(key=key, text=text)
-                    else:
-                        runs.append(w)
+                runs = sruns
 
     run_fail = [r for r in runs if not r['passed']]
     rep.obligation('validation (not proof): %d whole runs with -verify pass for 1 GPU, 2 GPUs, unified 2-GPU device' % len(runs), not run_fail)
 
     hist = collections.Counter((e['e'] + (':' + e['port'] if 'port' in e else '')) for c in cases for e in c['events'])
     rep.coverage.update({
-        'evaluations': len(cases) + len(dcases) + len(scases) + len(runs),
+        'evaluations': len(cases) + len(dcases) + len(scases) + len(runs) + len(epairs),
         'distinct_nontrivial': len({vlib.case_hash(strip(c)) for c in cases if nontrivial(c)}),
         'rule': 'RDMA: random port-level histories (60-260 events; buffer sizes {1,2,3,4,128} x per-cycle widths 1-3; banked tables with '
                 '2-4 remote and 1-4 local modules); every 5th history starves one path of responses (buffer 2-4, transactions pile up beyond the buffer size) and ends with a fair tail serving the other path; every 5th history keeps the 1-2 entry out-buffer of the control port full (DrainReqs without waiting for acks, rare pick-up) while traffic from outside stays in flight; every 4th history hostile (unknown/duplicate RspTo, wrong message kind, empty/self source, '
@@ -600,13 +721,16 @@ def main(argv):
         'rdma_crashes_observed': sum(1 for c in cases if any(e.get('crash') for e in c['events'])),
         'distribute_cases': len(dcases), 'distribute_panics': sum(1 for c in dcases if c['panic']),
         'distribute_fewer_pages_than_gpus': sum(1 for c in dcases if not c['panic'] and c['bytes'] and ((c['bytes'] - 1) >> c['log2ps']) + 1 < len(c['gpus'])),
+        'gpu_count_independence_runs': len(epairs), 'gpu_count_independence_baselines': len(ebases),
+        'gpu_count_independence_buffers_compared': sum(len((b or {}).get('data', {}).get('buffers', [])) if b and b.get('data') else 0 for _, b in epairs),
+        'gpu_count_independence_fewer_items_than_gpus': sum(1 for r, _ in epairs if (r['size'] // 64 if r['bench'] == 'matrixtranspose' else r['size']) < len(r['gpus'].split(','))),
         'routing_tables_checked': len(rcases), 'routing_probes': sum(len(c['probes']) for c in rcases),
         'split_cases': len(scases), 'split_exhaustive': sum(1 for c in scases if c.get('exhaustive')),
         'split_workgroups_filtered': sum(c.get('total_wg', 0) for c in scases if c.get('exhaustive')),
         'whole_run_teardown_race_retries': sum(r.get('teardown_race_retries', 0) for r in runs),
         'whole_runs': [{'cmd': ' '.join(r['cmd']), 'passed': r['passed'], 'wall_s': r['wall_s']} for r in runs],
         'model_mismatches': len(mism) + len(dmism) + len(smism) + len(rmism),
-        'monitor_failures': len(bad) + len(dbad) + len(sbad) + len(rbad) + len(run_fail),
+        'monitor_failures': len(bad) + len(dbad) + len(sbad) + len(rbad) + len(ebad) + len(run_fail),
     })
     rep.samples = [{'buf': c['buf'], 'w': c['w'], 'events': [(e['e'], e.get('port'), (e.get('msg') or {}).get('id')) for e in c['events'][:20]]} for c in cases[:2]]
 
@@ -616,7 +740,7 @@ def main(argv):
         out, _ = run_harness(binary, 'rdma', cases=[strip(c)])
         return bool(out) and env_ok(out[0]) and monitor(out[0]) is not None
 
-    if not bad and not dbad and not sbad and not rbad and not run_fail and (mism or not okc) and not replay_file:
+    if not bad and not dbad and not sbad and not rbad and not ebad and not run_fail and (mism or not okc) and not replay_file:
         # the model and the engine part ways: look harder for a history on which the
         # engine itself breaks the property (more seeds, control back-pressure and
         # hostile streams emphasised)
@@ -646,6 +770,11 @@ def main(argv):
     elif sbad:
         i, msg = sbad[0]
         rep.violation({'property': PROP, 'kind': 'split', 'what': msg, 'case': scases[i], 'replay_cmd': './check C18 --replay <this file>'}, text=msg)
+    elif ebad:
+        i, msg = ebad[0]
+        r = epairs[i][0]
+        rep.violation({'property': PROP, 'kind': 'e2e', 'what': msg, 'case': {k: r[k] for k in ('bench', 'size', 'gpus', 'unified', 'timing')},
+                       'observed': r['data'], 'single_gpu': (epairs[i][1] or {}).get('data'), 'replay_cmd': './check C18 --replay <this file>'}, text=msg)
     elif rbad:
         i, msg = rbad[0]
         rep.violation({'property': PROP, 'kind': 'route', 'what': msg, 'case': rcases[i], 'replay_cmd': './check C18 (the routing check is deterministic and runs on every check)'}, text=msg)
@@ -672,6 +801,11 @@ def main(argv):
                        'distributeWGToGPUs / WGFilter; theorem gpu_split_partition no longer speaks about this code',
                        'case': scases[i] if scases else None, 'log': slog[-2000:]}, nofail=True,
                       text='model/implementation mismatch at split case %d; monitor passes on %d cases' % (i, len(scases)))
+    if not rep.violations and (bmism or not okb2):
+        i = bmism[0][0] if bmism else 0
+        rep.violation({'property': PROP, 'kind': 'e2e', 'broken': 'the work partition of a benchmark differs from the modelled slices (coq/drv/Distribute.v Bench); theorems bench_*_partition no longer speak about this code',
+                       'case': {k: btie[i][k] for k in ('bench', 'size', 'gpus', 'unified', 'timing')} if btie else None, 'log': blog2[-2000:]}, nofail=True,
+                      text='benchmark work partition differs from the model')
     if not rep.violations and (rmism or not okr or (not rcases and not replay_file)):
         rep.violation({'property': PROP, 'kind': 'route', 'broken': 'the RDMA address table built by timingconfig is not [CPU, GPU 1, ..., GPU n] any more (or the routing harness failed); theorem routing_table_correct no longer speaks about this platform',
                        'case': rcases[rmism[0][0]] if rmism else None, 'log': rlog[-2000:]}, nofail=True,
